@@ -174,6 +174,12 @@ func (r *generateReader) ReadByte() (byte, error) {
 			return '\\', nil
 		}
 
+		if si+1 >= len(r.s) {
+			// A lone backslash ends the template: it is for the parser of the
+			// generated line as well, and must not reach into the next step.
+			return '\\', nil
+		}
+
 		r.escape = true
 		return r.ReadByte()
 	case '$':
